@@ -184,6 +184,9 @@ func withinCap(context *api.Context, point b6.Geometry, radius float64) (b6.Quer
 	if err := requireGeometry("within-cap", point); err != nil {
 		return nil, err
 	}
+	if !point.Point().IsUnit() {
+		return nil, fmt.Errorf("within-cap: center isn't a valid point")
+	}
 	return b6.NewIntersectsCap(s2.CapFromCenterAngle(point.Point(), b6.MetersToAngle(radius))), nil
 }
 
